@@ -54,6 +54,12 @@ def generate(tape, tier="quick"):
         if tape.chance(1, 2):
             src["mem_limit"] = tape.choice([0, 10, 60])
     cu = tape.choice([None, None, "m", "km", "mm"]) if src["units"] in ("m", "km") else None
+    if "grid" not in src and tape.chance(1, 6):
+        # temperatures: units with an offset (interpolating them must add differences, never two absolute values);
+        # scaling or shifting adapters make no sense on such data
+        src["units"] = "degC"
+        cu = tape.choice([None, "K", "degC"])
+        chain[:] = [a for a in chain if a["kind"] in ("linear", "step", "next", "prev")]
     return {"engine": "E3", "src": src,
             "consumers": [dict({"chain": chain, "units": cu}, **({"mem_limit": mem} if mem is not None else {}))], "events": events, "api": tape.draw(16)}
 
